@@ -70,6 +70,9 @@ func (m *ModelServer) PullHail(request *traits.PullHailRequest, server traits.Ha
 }
 
 func (m *ModelServer) ListHails(_ context.Context, request *traits.ListHailsRequest) (*traits.ListHailsResponse, error) {
+	if err := checkPageSize(request.GetPageSize()); err != nil {
+		return nil, err
+	}
 	pageToken := &types.PageToken{}
 	if err := decodePageToken(request.PageToken, pageToken); err != nil {
 		return nil, err
